@@ -677,9 +677,13 @@ impl Xot {
                         span: _,
                     } => {
                         if prefix.as_str() == "xmlns" {
-                            builder.prefix(local.as_str(), value.as_str(), self);
+                            // a namespace declaration is an attribute: its value
+                            // can contain references and is normalized
+                            let uri = parse_attribute(value.as_str().into(), value.start())?;
+                            builder.prefix(local.as_str(), &uri, self);
                         } else if local.as_str() == "xmlns" {
-                            builder.prefix("", value.as_str(), self);
+                            let uri = parse_attribute(value.as_str().into(), value.start())?;
+                            builder.prefix("", &uri, self);
                         } else {
                             builder.attribute(prefix, local, value)?;
                         }
